@@ -234,6 +234,10 @@ func beat() {
 
 func (e *Env) Run(spec world.Spec) *RunResult {
 	beat()
+	if os.Getenv("VERIF_DUMP") != "" {
+		fb, _ := json.Marshal(spec.Faults)
+		fmt.Fprintf(os.Stderr, "START args=%v faults=%s\n", spec.Args, fb)
+	}
 	r := RunCLI(e.Prog, spec)
 	if os.Getenv("VERIF_DUMP") != "" {
 		fmt.Fprintf(os.Stderr, "RUN args=%v outcome=%s exit=%d\n stdout=%q\n stderr=%q\n", spec.Args, r.Outcome, r.Exit, clip(string(r.Stdout), 600), clip(string(r.Stderr), 600))
